@@ -263,15 +263,15 @@ class LogitLayer(Bijector):
         :param alpha: The alpha parameter for logit transformation.
         :raises ValueError: If a parameter is out of domain.
         """
-        if alpha <= 0.0 or alpha >= 1.0:
-            raise ValueError("The alpha logit parameter must be in (0, 1)")
+        if alpha <= 0.0 or alpha >= 1.0 or alpha == 0.5:
+            raise ValueError("The alpha logit parameter must be in (0, 1) and different from 0.5")
 
         super().__init__(in_features)
         self.alpha = alpha
 
         # Cache part of the log-det-jacobian as a constant
         dims = np.prod(self.in_features)
-        self.register_buffer('ldj', torch.tensor(-dims * np.log(1.0 - 2.0 * self.alpha), dtype=torch.float32))
+        self.register_buffer('ldj', torch.tensor(-dims * np.log(np.abs(1.0 - 2.0 * self.alpha)), dtype=torch.float32))
 
     def apply_backward(self, x: torch.Tensor) -> Tuple[torch.Tensor, torch.Tensor]:
         batch_size = x.shape[0]
